@@ -22,6 +22,10 @@ func init() { fw.Register(&c11{}) }
 
 func (*c11) ID() string    { return "C11" }
 func (*c11) Level() string { return "exploration" }
+
+// termination is not this property's claim (C04/C05 decide it): a case that exhausts the watchdog's
+// CPU allowance is a generated program that is too expensive, counted as inconclusive
+func (*c11) Config(tier string) fw.Config { return fw.Config{CrashInconclusive: true} }
 func (*c11) NumCases(tier string) int {
 	if tier == "thorough" {
 		return 100000
@@ -450,6 +454,20 @@ func (c *c11) RunCase(r *fw.Rec, cs fw.Case) {
 		r.Inconc("budget")
 		return
 	}
+	if base.Phase == "compile-error" && cs.Index < len(c11Directed) {
+		// the directed programs are legal wherever they stand: if the top level rejects one, the
+		// function body and the module body must reject it too
+		inFn := runEngine([]byte("res__ := (func() {\n"+src+"\nreturn 1\n})()\n"), engineOpts{Budget: 1_000_000})
+		mm := tengo.NewModuleMap()
+		mm.AddSourceModule("pmod", []byte(src+"\nexport 1\n"))
+		inMod := runEngine([]byte("res__ := import(\"pmod\")\n"), engineOpts{Mods: mm, Budget: 1_000_000})
+		r.EvalN(2)
+		if inFn.Phase != "compile-error" || inMod.Phase != "compile-error" {
+			r.Violate("outcome:rejected-only-at-top-level", "P is rejected by the compiler at the top level but accepted inside a function body or a module body",
+				map[string]interface{}{"P": src, "P_outcome": base.Phase + ": " + base.FullErr, "in_function": inFn.Phase + ": " + inFn.Err, "in_module": inMod.Phase + ": " + inMod.Err})
+		}
+		return
+	}
 	if base.Phase == "parse-error" || base.Phase == "compile-error" {
 		r.Inc("P:" + base.Phase)
 		return
@@ -683,6 +701,9 @@ type c11D struct {
 }
 
 var c11Directed = []c11D{
+	// variables named like builtin functions (declared before any use of the name)
+	{"len := 5\nout := len + 1\ncopy := func(x) { return x + len }\nc := copy(3)\ng := func() { return copy(4) + len }\nd := g()\n", []string{"len", "out", "c", "d"}},
+	{"format := \"f\"\nif true {\n  string := format + \"s\"\n  format = string\n}\nis_int := func(v) { return format + v }\nr := is_int(\"!\")\n", []string{"format", "r"}},
 	{"x := 1\nf := func() { x += 1; return x }\ng := func() { h := func() { x = x * 10; return x }; return h() }\na := f()\nb := g()\nc := f()\n", []string{"x", "a", "b", "c"}},
 	{"m := {a: {b: 1}}\nset := func(v) { m.a.b = v; m.a.c = [v] }\nset(5)\nk := m.a.b + m.a.c[0]\nm.a.c[0] += 1\nz := m.a.c\n", []string{"m", "k", "z"}},
 	{"n := 10\nv1 := 0\nif n > 5 {\n  t := n * 2\n  q := func() { return t + n }\n  v1 = q()\n}\nw := func(n) { n = n + 1; return n }\nv2 := w(n)\nv3 := n\n", []string{"n", "v1", "v2", "v3"}},
